@@ -71,6 +71,10 @@ impl Ctl {
 pub enum End {
     Eof,
     Error(String),
+    /// WebSocket peers: the bytes the endpoint wrote are not a valid sequence of WebSocket messages (a data frame inside an
+    /// unfinished fragmented message, a stray continuation frame, reserved bits, bad opcodes ...). This is the WebSocket form of
+    /// "something follows a partial frame" and is judged, unlike a reset or an abrupt close.
+    CorruptWsStream(String),
     Quiet,
     Deadline,
 }
@@ -295,8 +299,10 @@ pub async fn ws_recorder(mut rd: SplitStream<WsS>, mut wr: Option<SplitSink<WsS,
             }
             Ok(Some(Err(e))) => {
                 use tokio_tungstenite::tungstenite::Error as E;
+                use tokio_tungstenite::tungstenite::error::ProtocolError as P;
                 break match e {
                     E::ConnectionClosed | E::AlreadyClosed => End::Eof,
+                    E::Protocol(p @ (P::ExpectedFragment(_) | P::UnexpectedContinueFrame | P::NonZeroReservedBits | P::FragmentedControlFrame | P::ControlFrameTooBig | P::UnknownControlFrameType(_) | P::UnknownDataFrameType(_) | P::InvalidOpcode(_))) => End::CorruptWsStream(p.to_string()),
                     other => End::Error(other.to_string()),
                 };
             }
